@@ -658,6 +658,11 @@ def _sizes_of(term, attr_sizes, real_branch, q):
     if a and a[0] == "call":
         cn = call_name(a)
         if cn in ("numpy.zeros", "numpy.empty", "numpy.ones", "numpy.full") and a[2]:
+            sa_ = a[2][0].as_atom()
+            if sa_ and sa_[0] == "ite" and "iscomplexobj" in sa_[1].key():
+                # one allocation whose length is chosen by the layout:  np.zeros(nlm if complex else nplm)
+                neg = bool(sa_[1].as_atom() and sa_[1].as_atom()[0] == "not")
+                return [(neg, sa_[2].key()), (not neg, sa_[3].key())]
             return [(real_branch, a[2][0].key())]
         if cn in ("numpy.zeros_like", "numpy.empty_like", "numpy.ones_like", "numpy.copy", "numpy.array") and a[2]:
             return _sizes_of(a[2][0], attr_sizes, real_branch, q)
